@@ -1,0 +1,30 @@
+//go:build verif
+
+package staging
+
+// Contracts for the stager (property C10): it is a thin layer over the
+// content-addressed store - lookups go to the store with the requested path
+// and digest, a sink writes to and commits its own storage under its own path.
+// Comment-only file: compiled only under the "verif" build tag, contains no
+// code. The "//@" lines are read by /verif/govc. addr/hexof are defined in the
+// store package's contract file.
+
+//@ func (*Stager).Provide
+//@   requires s != nil && s.store != nil
+//@   ensures[address] result1 == nil ==> nhex == old(nhex) + 2 && store.hexof(old(nhex), digest) && result0 == store.addr(s.store.root, old(nhex))
+//@   at call (*Store).Path assert[requested] arg0 == s.store && arg1 == path && arg2 == digest
+
+//@ func (*Stager).Contains
+//@   requires s != nil && s.store != nil
+//@   ensures[address] result0 ==> result1 == nil && nhex == old(nhex) + 2 && store.hexof(old(nhex), digest)
+//@   at call (*Store).Contains assert[requested] arg0 == s.store && arg1 == path && arg2 == digest
+
+// (a sink's storage comes from Store.Allocate: well formed)
+//@ func (*Sink).Write
+//@   requires s != nil && store.wfstorage(s.storage)
+//@   ensures[wf] store.wfstorage(s.storage)
+//@   at call (*Storage).Write assert[own] arg0 == s.storage && arg1 == data
+
+//@ func (*Sink).Close
+//@   requires s != nil && store.wfstorage(s.storage)
+//@   at call (*Storage).Commit assert[own] arg0 == s.storage && arg1 == s.path
